@@ -40,7 +40,7 @@ func (vc *VC) mapParts(m SVal, MT *types.Map, k SVal) (hasKey, valKey, key strin
 	key = vc.mapKey(k, MT.Key())
 	p = ptrV(types.NewPointer(MT.Elem()), m.S, key)
 	p.Key = valKey
-	if _, isSt := MT.Elem().Underlying().(*types.Struct); isSt {
+	if st, isSt := MT.Elem().Underlying().(*types.Struct); isSt && st.NumFields() > 0 {
 		unsup("map with struct values (%v)", MT)
 	}
 	return
@@ -176,4 +176,36 @@ func (e *Engine) expandMods() {
 		}
 		c.Mods = out
 	}
+}
+
+// namedType resolves T or pkg.T in a contract expression to a named type: T in the package of the
+// function under verification, pkg.T in one of the packages it imports (by package name).
+func (vc *VC) namedType(e Expr) types.Type {
+	if vc.fn.Pkg == nil {
+		unsup("type name in a contract of a function without package")
+	}
+	switch x := e.(type) {
+	case *EIdent:
+		if o := vc.fn.Pkg.Pkg.Scope().Lookup(x.Name); o != nil {
+			if tn, ok := o.(*types.TypeName); ok {
+				return tn.Type()
+			}
+		}
+		unsup("no type %s in package %s", x.Name, vc.fn.Pkg.Pkg.Path())
+	case *EField:
+		if id, ok := x.X.(*EIdent); ok {
+			for _, imp := range vc.fn.Pkg.Pkg.Imports() {
+				if imp.Name() == id.Name {
+					if o := imp.Scope().Lookup(x.Name); o != nil {
+						if tn, ok := o.(*types.TypeName); ok {
+							return tn.Type()
+						}
+					}
+				}
+			}
+			unsup("no type %s.%s among the imports of %s", id.Name, x.Name, vc.fn.Pkg.Pkg.Path())
+		}
+	}
+	unsup("type name expected, got %s", e)
+	return nil
 }
